@@ -231,6 +231,7 @@ def replay(rec):
             A = np.vstack([A, [3.0, -3.5]])
             sq = np.append(sq, 0.0)
         fit = computechi2(b, sq, A)
+        chi2_first = float(fit.chi2)          # same order of use as the symbolic run: chi2 is read before yfit
         M = A * sq[:, None]
         mm = M.T @ M
         scale = np.abs(mm).max()
@@ -245,6 +246,9 @@ def replay(rec):
         if np.abs(fit.acoeff - xref).max() > 1e-6 * max(1e-300, np.abs(xref).max()):
             return True
         if np.abs(fit.yfit - A @ xref).max() > 1e-6 * max(1e-300, np.abs(A @ xref).max()):
+            return True
+        res = float((((M @ xref) - b * sq) ** 2).sum())
+        if abs(chi2_first - res) > 1e-6 * max(1e-300, abs(res), float(((b * sq) ** 2).sum()) * 1e-6):
             return True
         return int(fit.dof) != int((sq > 0).sum()) - 2
     N, M, K = d['N'], d['M'], d['K']
